@@ -179,9 +179,177 @@ proof! {
 	}
 }
 
+/// model chain with symbolic (but fixed per run) answers and call flags: the trait is the
+/// pool's boundary to the chain
+pub struct SChain {
+	pub maturity_ok: bool,
+	pub lock_ok: bool,
+	pub utxo_ok: bool,
+}
+pub static mut LOCK_ASKED: u32 = 0;
+pub static mut MATURITY_ASKED: u32 = 0;
+pub static mut UTXO_ASKED: u32 = 0;
+impl BlockChain for SChain {
+	fn verify_coinbase_maturity(&self, _inputs: &Inputs) -> Result<(), PoolError> {
+		unsafe { MATURITY_ASKED += 1 };
+		if self.maturity_ok { Ok(()) } else { Err(PoolError::ImmatureCoinbase) }
+	}
+	fn verify_tx_lock_height(&self, _tx: &Transaction) -> Result<(), PoolError> {
+		unsafe { LOCK_ASKED += 1 };
+		if self.lock_ok { Ok(()) } else { Err(PoolError::ImmatureTransaction) }
+	}
+	fn validate_tx(&self, _tx: &Transaction) -> Result<(), PoolError> {
+		unsafe { UTXO_ASKED += 1 };
+		if self.utxo_ok { Ok(()) } else { Err(PoolError::DuplicateCommitment) }
+	}
+	fn validate_inputs(&self, inputs: &Inputs) -> Result<Vec<OutputIdentifier>, PoolError> {
+		// every input is an unspent plain output of the chain
+		let commits: Vec<CommitWrapper> = inputs.into();
+		let mut v = Vec::with_capacity(1);
+		let mut i = 0;
+		while i < commits.len() {
+			v.push(OutputIdentifier { features: OutputFeatures::Plain, commit: commits[i].commitment() });
+			i += 1;
+		}
+		Ok(v)
+	}
+	fn chain_head(&self) -> Result<BlockHeader, PoolError> {
+		Ok(BlockHeader::default())
+	}
+	fn get_block_header(&self, _hash: &Hash) -> Result<BlockHeader, PoolError> {
+		Ok(BlockHeader::default())
+	}
+	fn get_block_sums(&self, _hash: &Hash) -> Result<BlockSums, PoolError> {
+		Ok(BlockSums::default())
+	}
+}
+pub static mut TX_ACCEPTED: u32 = 0;
+pub static mut STEM_ACCEPTED: u32 = 0;
+pub struct SAdapter {
+	pub stem_ok: bool,
+}
+impl grin_pool::types::PoolAdapter for SAdapter {
+	fn tx_accepted(&self, _entry: &grin_pool::types::PoolEntry) {
+		unsafe { TX_ACCEPTED += 1 };
+	}
+	fn stem_tx_accepted(&self, _entry: &grin_pool::types::PoolEntry) -> Result<(), PoolError> {
+		unsafe { STEM_ACCEPTED += 1 };
+		if self.stem_ok { Ok(()) } else { Err(PoolError::DandelionError) }
+	}
+}
+
+/// tagging stub for Transaction::validate (the standalone validation itself is decided under
+/// C01): records the weighting it was asked for and answers with the run's symbolic verdict
+pub mod tag {
+	use grin_core::core::transaction::{Error, Transaction, Weighting};
+	pub static mut AS_TX_CALLS: u32 = 0;
+	pub static mut NO_LIMIT_CALLS: u32 = 0;
+	pub static mut OTHER_CALLS: u32 = 0;
+	pub static mut VALID_AS_TX: bool = true;
+	pub static mut VALID_NO_LIMIT: bool = true;
+	pub fn validate(_tx: &Transaction, weighting: Weighting) -> Result<(), Error> {
+		unsafe {
+			match weighting {
+				Weighting::AsTransaction => {
+					AS_TX_CALLS += 1;
+					if VALID_AS_TX { Ok(()) } else { Err(Error::TooHeavy) }
+				}
+				Weighting::NoLimit => {
+					NO_LIMIT_CALLS += 1;
+					if VALID_NO_LIMIT { Ok(()) } else { Err(Error::IncorrectSignature) }
+				}
+				_ => {
+					OTHER_CALLS += 1;
+					Err(Error::TooHeavy)
+				}
+			}
+		}
+	}
+}
+
+proof! {
+	[secp, hash_mix, clock]
+	#[cfg_attr(kani, kani::stub(grin_core::core::transaction::Transaction::validate, tag::validate))]
+	fn add_to_pool_gate_sequencing() {
+		// TransactionPool::add_to_pool on empty pools, one transaction, with the chain, the
+		// adapter and standalone validation answering arbitrarily: the transaction is admitted
+		// ONLY IF it pays the minimum fee for its weight, standalone validation (as a
+		// transaction: weight limit included) accepted it, lock height, coinbase maturity and
+		// the chain's utxo check passed, and an NRD kernel is allowed; a refusal leaves the
+		// public pool empty and signals nothing
+		#[cfg(kani)]
+		{
+			env::set_chain_type(grin_core::global::ChainTypes::Mainnet);
+			let nrd_enabled: bool = nd::any();
+			env::set_nrd_enabled(nrd_enabled);
+			let base: u64 = nd::any();
+			nd::assume(base < (1 << 40));
+			env::set_accept_fee_base(base);
+			let fee: u64 = nd::any();
+			nd::assume(fee < (1 << 40));
+			let shift: u64 = nd::any();
+			nd::assume(shift < 16);
+			let kind: u8 = nd::any();
+			nd::assume(kind < 3);
+			let features = match kind {
+				0 => KernelFeatures::Plain { fee: fee_fields(fee, shift) },
+				1 => KernelFeatures::HeightLocked { fee: fee_fields(fee, shift), lock_height: nd::any() },
+				_ => KernelFeatures::NoRecentDuplicate { fee: fee_fields(fee, shift), relative_height: NRDRelativeHeight::new(1440).unwrap() },
+			};
+			let tx = tx_1_2_1(features);
+			let v: u16 = nd::any();
+			let mut header = BlockHeader::default();
+			header.version = HeaderVersion(v);
+			let stem: bool = nd::any();
+			unsafe {
+				tag::VALID_AS_TX = nd::any();
+				tag::VALID_NO_LIMIT = nd::any();
+			}
+			let chain = SChain { maturity_ok: nd::any(), lock_ok: nd::any(), utxo_ok: nd::any() };
+			let (m_ok, l_ok, u_ok) = (chain.maturity_ok, chain.lock_ok, chain.utxo_ok);
+			let adapter = SAdapter { stem_ok: nd::any() };
+			let stem_ok = adapter.stem_ok;
+			let mut pool = TransactionPool::new(PoolConfig::default(), Arc::new(chain), Arc::new(adapter));
+			let r = pool.add_to_pool(TxSource::Broadcast, tx, stem, &header);
+			let low = (fee >> shift) < 4 * base;
+			let (as_tx, no_limit, other) = unsafe { (tag::AS_TX_CALLS, tag::NO_LIMIT_CALLS, tag::OTHER_CALLS) };
+			let in_tx = pool.txpool.size();
+			let in_stem = pool.stempool.size();
+			if r.is_ok() {
+				check!(!low, "admitted => pays at least weight * accept_fee_base after its fee shift");
+				check!(as_tx >= 1 && unsafe { tag::VALID_AS_TX }, "admitted => standalone validation as a transaction (weight limit included) ran and accepted it");
+				check!(other == 0, "no other weighting is used on the admission path");
+				check!(unsafe { LOCK_ASKED } >= 1 && l_ok, "admitted => lock height checked against the chain and satisfied");
+				check!(unsafe { MATURITY_ASKED } >= 1 && m_ok, "admitted => coinbase maturity checked and satisfied");
+				check!(unsafe { UTXO_ASKED } >= 1 && u_ok, "admitted => inputs / outputs checked against the chain's utxo set");
+				check!(no_limit >= 1 && unsafe { tag::VALID_NO_LIMIT }, "admitted => the pool aggregate was validated");
+				check!(kind != 2 || (nrd_enabled && v >= 4), "an NRD kernel is admitted only when enabled and from header version 4");
+				if stem && stem_ok {
+					check!(in_stem == 1 && in_tx == 0 && unsafe { TX_ACCEPTED } == 0, "an accepted stem transaction stays in the stempool only");
+				} else {
+					check!(in_tx == 1 && unsafe { TX_ACCEPTED } == 1, "a fluffed transaction is in the public pool and announced once");
+				}
+				check!(stem || in_stem == 0, "a fluff transaction never enters the stempool");
+			} else {
+				check!(in_tx == 0 && unsafe { TX_ACCEPTED } == 0, "a refused transaction is not in the public pool and is not announced");
+				if low && !(kind == 2 && (!nrd_enabled || v < 4)) {
+					check!(matches!(r, Err(PoolError::LowFeeTransaction(_))) && as_tx == 0, "below the fee floor: refused as low-fee before validation");
+				}
+			}
+			cover!(r.is_ok() && stem && stem_ok, "stem transaction admitted to the stempool");
+			cover!(r.is_ok() && stem && !stem_ok, "stem transaction fluffed because the adapter refused");
+			cover!(r.is_ok() && !stem && kind == 2, "NRD transaction admitted");
+			cover!(r.is_err() && !low && !l_ok, "refused for its lock height");
+			core::mem::forget(r);
+			core::mem::forget(pool);
+		}
+	}
+}
+
 pub const HARNESSES: &[(&str, fn())] = &[
 	("c14::pool_refuses_low_fee", pool_refuses_low_fee),
 	("c14::pool_refuses_nrd_unless_enabled_and_hf3", pool_refuses_nrd_unless_enabled_and_hf3),
 	("c14::fee_and_weight_arithmetic", fee_and_weight_arithmetic),
 	("c14::tx_fee_gate_inputs", tx_fee_gate_inputs),
+	("c14::add_to_pool_gate_sequencing", add_to_pool_gate_sequencing),
 ];
